@@ -343,3 +343,54 @@ func init() {
 			What: "one output pass: acks cumulative, retransmissions unchanged, data deferred while the client session is opening (= C13 H13.2 incl. the H2.1 deferral assertion)", Bounds: "as C13 H13.2", Outside: "liveness; " + sessNote},
 	)
 }
+
+func init() {
+	sess := map[string]string{
+		"github.com/google/btree.NewG":                           "vTreeNew",
+		"(*github.com/google/btree.BTreeG[T]).Len":               "vTreeLen",
+		"(*github.com/google/btree.BTreeG[T]).ReplaceOrInsert":   "vTreeReplaceOrInsert",
+		"(*github.com/google/btree.BTreeG[T]).Min":               "vTreeMin",
+		"(*github.com/google/btree.BTreeG[T]).Max":               "vTreeMax",
+		"(*github.com/google/btree.BTreeG[T]).DeleteMin":         "vTreeDeleteMin",
+		"(*github.com/google/btree.BTreeG[T]).Clear":             "vTreeClear",
+		"(*github.com/google/btree.BTreeG[T]).Ascend":            "vTreeAscend",
+		"(*github.com/enfein/mieru/v3/pkg/protocol.Session).output": "vStubOutput",
+		"github.com/enfein/mieru/v3/pkg/metrics.RegisterMetric":  "vStubRegisterMetric",
+	}
+	sessLB := map[string]int{"closeWithError": 1001}
+	sessNote := "B-tree replaced by a sorted-set model of capacity 4 (DESIGN 3.5); Session.output and metric registration stubbed; mutexes no-ops (mutual exclusion assumed); goroutine interleavings other than the modelled ones outside the claim"
+	wr := map[string]string{"time.Sleep": "vStubSleepEnv"}
+	for k, v := range sess {
+		wr[k] = v
+	}
+	wrNote := sessNote + "; the output loop is the environment: at every back-pressure sleep it pops the head of the send queue"
+	gates := HarnessDef{ID: "H5.3", Spec: HarnessSpec{Name: "vH_C05_server_gates", Pkg: "pkg/protocol", LoopBound: 8, TimeoutS: 60},
+		What:   "validateServerSegmentDirection / validateNewServerSessionSegment for EVERY protocol byte and metadata kind: the direction gate passes exactly the client-to-server types of docs/protocol.md (a server's own output reflected back never passes), and only an open-session request with non-zero id may create a server session",
+		Bounds: "all 256 protocol values, all field values", Outside: "-"}
+	reg("C05", gates)
+	dir := HarnessDef{ID: "H4.4", Spec: HarnessSpec{Name: "vH_C04_input_direction", Pkg: "pkg/protocol", LoopBound: 8, LoopBounds: sessLB, TimeoutS: 240, Par: 6, Redirects: sess},
+		What:   "real Session.input on every protocol byte x client/server x TCP/UDP x attached/established: a segment type the peer of this session cannot legitimately send (wrong direction incl. the low-entropy data types, undefined types) is refused with an error and leaves the session untouched - nothing queued for the application, nothing acknowledged, nothing sent, not closed",
+		Bounds: "one segment, payload 1 byte", Outside: sessNote}
+	reg("C04", dir)
+	reg("C10", dir)
+	win := HarnessDef{ID: "H2.4", Spec: HarnessSpec{Name: "vH_C02_window_update", Pkg: "pkg/protocol", LoopBound: 8, LoopBounds: sessLB, TimeoutS: 240, Par: 6, Redirects: sess},
+		What:   "real Session.input -> inputAck / inputData on UDP from an arbitrary send buffer: the send window follows the window advertised by EVERY accepted data/ack segment (also when nothing is in flight - the heartbeat that reopens a closed window); exactly the segments with seq < the peer's cumulative ack leave the send buffer (C13 H13.5)",
+		Bounds: "<= 2 segments in flight, payload <= 1 byte", Outside: sessNote}
+	reg("C02", win)
+	reg("C13", win)
+	reg("C02", HarnessDef{ID: "H2.5", Spec: HarnessSpec{Name: "vH_C02_open_response_reliable", Pkg: "pkg/protocol", LoopBound: 8, LoopBounds: sessLB, TimeoutS: 120, Par: 2, Redirects: sess},
+		What:   "a server answers an open-session request by QUEUING the response in the reliable send path (send queue, next sequence number) - it is not fired once past the retransmission machinery",
+		Bounds: "both transports", Outside: sessNote})
+	wcU := HarnessDef{ID: "H1.2a", Spec: HarnessSpec{Name: "vH_C01_writechunk_udp", Pkg: "pkg/protocol", LoopBound: 8, LoopBounds: sessLB, TimeoutS: 240, Par: 6, Redirects: wr},
+		What:   "real Session.writeChunk on UDP (MTU 1280, fragment 1192) for chunk lengths 1, 1192, 1193, 2384, 2385 with symbolic contents: ceil(len/fragment) segments with consecutive sequence numbers from nextSend, fragment numbers counting down to 0, all but the last full, lengths summing to len, byte i of the chunk at byte i-offset of its fragment, cumulative ack and session id stamped, and each segment OWNS its payload (reusing the caller's buffer after Write does not change later transmissions)",
+		Bounds: "chunk lengths as listed (both sides of each fragment boundary), arbitrary nextSend/nextRecv, low entropy off", Outside: wrNote}
+	wcT := HarnessDef{ID: "H1.2b", Spec: HarnessSpec{Name: "vH_C01_writechunk_tcp", Pkg: "pkg/protocol", LoopBound: 8, LoopBounds: sessLB, TimeoutS: 240, Par: 6, Redirects: wr},
+		What: "same on TCP for chunk lengths 1, 1024, 1025, 32768 (one segment each)", Bounds: "as listed", Outside: wrNote}
+	fw := HarnessDef{ID: "H14.3", Spec: HarnessSpec{Name: "vH_C14_first_write", Pkg: "pkg/protocol", LoopBound: 8, LoopBounds: sessLB, TimeoutS: 240, Par: 6, Redirects: wr},
+		What:   "real Session.Write, first client write of 0, 1, 1024, 1025 bytes: the open-session request takes sequence number 0 and is created once; a first write of at most 1024 bytes rides on it (and the request owns a copy of the bytes, so its retransmission is unchanged), a larger one follows as one data segment with sequence number 1",
+		Bounds: "lengths as listed, both transports, low entropy off", Outside: wrNote}
+	reg("C01", wcU, wcT, fw)
+	reg("C13", wcU, fw)
+	reg("C14", wcU, wcT, fw)
+	reg("C02", wcU)
+}
